@@ -63,6 +63,9 @@ def run(ctx: Ctx):
     from .common import generic_lints
 
     generic_lints(ctx)
+    from .common import position_param_truthiness
+
+    position_param_truthiness(ctx)
     from .common import id_truthiness
 
     id_truthiness(ctx)
